@@ -162,7 +162,6 @@ def sbool(x):
 class Special:
     """IEEE special value (result of x/0): kind in {'nan', '+inf', '-inf'}; numpy semantics."""
     __slots__ = ("kind",)
-    __array_ufunc__ = None
 
     def __init__(self, kind):
         self.kind = kind
@@ -172,6 +171,8 @@ class Special:
 
     # comparisons: nan compares False with everything; inf as expected against finite values
     def _cmp(self, o, op):
+        if isinstance(o, np.ndarray):
+            return NotImplemented
         if self.kind == "nan":
             return False
         if isinstance(o, Special):
@@ -188,13 +189,17 @@ class Special:
     def __gt__(self, o): return self._cmp(o, "gt")
     def __ge__(self, o): return self._cmp(o, "ge")
     def __eq__(self, o): return self._cmp(o, "eq")
-    def __ne__(self, o): return not self._cmp(o, "eq")
+    def __ne__(self, o):
+        r = self._cmp(o, "eq")
+        return r if r is NotImplemented else not r
     __hash__ = None
 
     def __neg__(self):
         return Special({"nan": "nan", "+inf": "-inf", "-inf": "+inf"}[self.kind])
 
     def _add(self, o):
+        if isinstance(o, np.ndarray):
+            return NotImplemented
         if self.kind == "nan":
             return self
         if isinstance(o, Special):
@@ -205,12 +210,18 @@ class Special:
     __add__ = __radd__ = _add
 
     def __sub__(self, o):
+        if isinstance(o, np.ndarray):
+            return NotImplemented
         return self._add(-o if isinstance(o, Special) else o)
 
     def __rsub__(self, o):
+        if isinstance(o, np.ndarray):
+            return NotImplemented
         return (-self)._add(o)
 
     def _mul(self, o):
+        if isinstance(o, np.ndarray):
+            return NotImplemented
         if self.kind == "nan":
             return self
         if isinstance(o, Special):
@@ -227,6 +238,8 @@ class Special:
     __mul__ = __rmul__ = _mul
 
     def __truediv__(self, o):
+        if isinstance(o, np.ndarray):
+            return NotImplemented
         if isinstance(o, Special):
             return Special("nan")
         o = Sym.of(o)
